@@ -522,8 +522,6 @@ func c29Supported(t reflect.Type) (ok bool, why string) {
 		return false, "named-nonstruct-field"
 	}
 	switch t.Kind() {
-	case reflect.Bool:
-		return false, "bool-field"
 	case reflect.Slice, reflect.Array:
 		return c29Supported(t.Elem())
 	case reflect.Ptr:
@@ -566,7 +564,7 @@ func c29Supported(t reflect.Type) (ok bool, why string) {
 }
 
 func c29GenTy(r *verifh.Run, pool map[string]*c29Entry, names []string, depth int, exotic bool) reflect.Type {
-	prims := []string{"u8", "u16", "u32", "u64", "i8", "i16", "i32", "i64", "str", "addr"}
+	prims := []string{"u8", "u16", "u32", "u64", "i8", "i16", "i32", "i64", "str", "addr", "bool"}
 	c := r.RNG.Intn(100)
 	switch {
 	case depth <= 0 || c < 45:
@@ -946,13 +944,6 @@ func TestVerifC29Values(t *testing.T) {
 				dj, uerr = UnmarshalAction(a, native)
 			}
 			switch {
-			case asOut && sup && uerr == nil && derr != nil && strings.Contains(derr.Error(), "not found in ABI") && strings.HasPrefix(derr.Error(), "action "):
-				// Marshal looks the type id up in abi.Actions only
-				out = "marshal-output-not-found"
-				vs = append(vs, c29Viol{"dynamic-marshal-output-type-not-found", fmt.Sprintf("registered output type %s: %v", name, derr)})
-				if !c29JSONEq([]byte(dj), vjs) {
-					vs = append(vs, c29Viol{"dynamic-unmarshal-json-mismatch", fmt.Sprintf("%s native=%s dynamic=%s", name, vjs, dj)})
-				}
 			case derr != nil || uerr != nil:
 				out = "err"
 				if !sup {
